@@ -441,8 +441,12 @@ func (matrix *SparseReal64Matrix) ElementType() ScalarType {
 }
 // Treat all elements as variables for automatic differentiation. This method should only be called on a single vector or matrix. If multiple matrices should be treated as variables, then a single matrix must be allocated first and sliced after calling this method.
 func (matrix *SparseReal64Matrix) Variables(order int) error {
-  for i, v := range matrix.values.values {
-    if err := v.SetVariable(i, matrix.values.Dim(), order); err != nil {
+  // only the elements this matrix denotes (it may be a slice of a larger
+  // matrix), numbered row by row
+  n, m := matrix.Dims()
+  for it := matrix.MagicIterator(); it.Ok(); it.Next() {
+    i, j := it.Index()
+    if err := it.GetMagic().SetVariable(i*m + j, n*m, order); err != nil {
       return err
     }
   }
